@@ -85,6 +85,8 @@ def candidates(kind, lits, rnd):
             c.append((v,))
             c.append(tuple([rnd.choice(members), v]))
         c.append(())
+        # containers need not be tuples: `x in tags` is just as natural with a list
+        c += [list(t) for t in c[-6:] if isinstance(t, tuple)]
     else:  # 'any': splitter-only field
         c += SPLITTER_VALUES
         c += [rnd.randint(0, 10**9), "id%d" % rnd.randint(0, 10**6)]
